@@ -1,4 +1,4 @@
-import TinodeVerif.Model.TopicCross
+import TinodeVerif.Model.TopicSys
 import TinodeVerif.Driver.Wire
 /-! Driver for the world stream (`TestVerifWorld`): one op per line, one output line per op, rendered exactly like the
 Go harness renders the real frames and state. -/
@@ -170,7 +170,9 @@ def step (st : WSt) (ws : List String) : Option (WSt × String) :=
   match ws with
   | "reset" :: rest =>
     let mx := (rest.head?.bind decNat).getD 32
-    some ({ w := { maxSubs := mx } }, "ok")
+    -- the database comes with the record of the system topic; the hub loads `sys` when it starts
+    let w0 : World := { maxSubs := mx, store := [sysRow] }
+    some ({ w := w0.withSys }, "ok")
   | "user" :: u :: au :: an :: rest =>
     let m := kv rest
     let tagArg := kvGet m "tags"
@@ -190,7 +192,8 @@ def step (st : WSt) (ws : List String) : Option (WSt × String) :=
   | "restart" :: _ =>
     if st.w.anythingHeld then some (st, "pending") else
     let store := st.snap.getD st.w.store
-    let w := { st.w with store := store, live := [], sess := st.w.sess.map (fun s => { s with subs := [], out := st.w.gone.contains s.uid, inflight := false }) }
+    let w : World := { st.w with store := store, live := [], sess := st.w.sess.map (fun (s : Sess) => { s with subs := [], out := st.w.gone.contains s.uid, inflight := false }) }
+    let w := w.withSys          -- the hub loads `sys` when it starts
     let st := { st with w := w, snap := none }
     some (st, render w st { w := w })
   -- crossings: a request is dispatched and stays queued; the hub and the topics take their queues step by step
@@ -293,6 +296,22 @@ def step (st : WSt) (ws : List String) : Option (WSt × String) :=
           | "get", "me" :: "desc" :: _ => some (c0.opGetMeDesc a)
           | "get", "me" :: "sub" :: _ => some (c0.opGetMeSub a)
           | "setsub", "me" :: _ => some (c0.opSetSubMe a (kvGet m "user") (optStr (kvGet m "mode")))
+          | "settags", "me" :: _ =>
+            let tagArg := kvGet m "tags"
+            some (c0.opSetTagsMe a (if tagArg = "" then [] else tagArg.splitOn ","))
+          | "get", "me" :: "tags" :: _ => some (c0.opGetTagsMe a)
+          | "sub", "sys" :: _ => some (c0.opSubSys a (optStr (kvGet m "mode")) (privArg (kvGet m "priv")) (kvGet m "user" ≠ ""))
+          | "pub", "sys" :: content :: _ => some (c0.opPubSys a content (parseHead (kvGet m "head")) (kvGet m "noecho" = "1"))
+          -- (`sys`: {set desc}, {set tags}, {set sub} for somebody else, {del topic}, the idle timer are not part of this stream)
+          | "setdesc", "sys" :: _ => none
+          | "settags", "sys" :: _ => none
+          | "deltopic", "sys" :: _ => none
+          | "delsub", "sys" :: _ => none
+          | "leave", "sys" :: _ => some (c0.opLeaveSys a (kvGet m "unsub" = "1"))
+          | "setsub", "sys" :: _ => if kvGet m "user" ≠ "" then none else some (c0.opSetSubSys a (optStr (kvGet m "mode")))
+          | "get", "sys" :: what :: _ =>
+            if what = "tags" then none else
+            some (c0.opGetSys a what ((decInt (kvGet m "since")).getD 0) ((decInt (kvGet m "before")).getD 0) ((decInt (kvGet m "limit")).getD 0))
           | "sub", "fnd" :: _ => some (c0.opSubFnd a)
           | "leave", "fnd" :: _ => some (c0.opLeaveFnd a (kvGet m "unsub" = "1"))
           | "pub", "fnd" :: _ => some (c0.opPubFnd a)
